@@ -60,6 +60,12 @@ def _subtree(ctx: Ctx, prefix: List[int], expect: list, budget: int, c: Counter)
             _subtree(ctx, x.choices[:i] + [alt], x.points, budget - 1, c)
 
 
+def warm(ctx: Ctx, d: dict):
+    """Replay support: a violation recorded on the second run of a session in one process needs the first run before it."""
+    if d.get('repeat') == 2:
+        run_once(ctx, [])
+
+
 def bounded(ctx: Ctx, d: int, workers: int, c: Optional[Counter] = None) -> Counter:
     """All executions with <= d deviations.  Work is split by the first deviation."""
     c = c or Counter()
@@ -67,7 +73,22 @@ def bounded(ctx: Ctx, d: int, workers: int, c: Optional[Counter] = None) -> Coun
     x1 = run_once(ctx, [])
     from .session import outcome_signature
     if x0.points != x1.points or outcome_signature(x0) != outcome_signature(x1):
-        raise prims.InternalError('the default schedule is not reproducible: uncontrolled nondeterminism in the harness')
+        # The same session, same schedule, run a second time in this process, went differently.  Everything the harness owns is rebuilt
+        # per execution, so either the library carried something over from the first session (module-level or class-level state) or the
+        # harness has a leak.  Judge both runs: a process that plays two sessions is ordinary use, and if the oracle condemns one of
+        # them that is a finding about the library; if both are fine and still differ, it is our problem.
+        cc = Counter()
+        ctx.judge(x0, cc, [])
+        n0 = len(cc.violations)
+        ctx.judge(x1, cc, [])
+        if not cc.violations:
+            raise prims.InternalError('the default schedule is not reproducible: uncontrolled nondeterminism in the harness')
+        for i, v in enumerate(cc.violations):
+            rp = dict(v.replay or {}, repeat=1 if i < n0 else 2)
+            c.violate(v.key, v.message + (' [the same session played a SECOND time in one process; the first time it went differently]' if i >= n0 else ''), rp)
+        c.inc('executions', 2)
+        c.inc('sessions_that_differ_when_played_twice_in_one_process')
+        return c
     ctx.horizon = max(50_000, 20 * x0.nsteps)
     c.inc('executions')
     c.inc('points', len(x0.points))
